@@ -10,7 +10,6 @@ import re
 
 from mako import ast
 from mako import exceptions
-from mako import filters
 from mako import util
 
 
@@ -208,9 +207,7 @@ class Expression(Node):
     def undeclared_identifiers(self):
         # TODO: make the "filter" shortcut list configurable at parse/gen time
         return self.code.undeclared_identifiers.union(
-            self.escapes_code.undeclared_identifiers.difference(
-                filters.DEFAULT_ESCAPES
-            )
+            self.escapes_code.undeclared_identifiers
         ).difference(self.code.declared_identifiers)
 
     def __repr__(self):
@@ -441,9 +438,9 @@ class TextTag(Tag):
         )
 
     def undeclared_identifiers(self):
-        return self.filter_args.undeclared_identifiers.difference(
-            filters.DEFAULT_ESCAPES.keys()
-        ).union(self.expression_undeclared_identifiers)
+        return self.filter_args.undeclared_identifiers.union(
+            self.expression_undeclared_identifiers
+        )
 
 
 class DefTag(Tag):
@@ -502,11 +499,7 @@ class DefTag(Tag):
             )
         return (
             set(res)
-            .union(
-                self.filter_args.undeclared_identifiers.difference(
-                    filters.DEFAULT_ESCAPES.keys()
-                )
-            )
+            .union(self.filter_args.undeclared_identifiers)
             .union(self.expression_undeclared_identifiers)
             .difference(self.function_decl.allargnames)
         )
@@ -565,11 +558,9 @@ class BlockTag(Tag):
         return self.body_decl.allargnames
 
     def undeclared_identifiers(self):
-        return (
-            self.filter_args.undeclared_identifiers.difference(
-                filters.DEFAULT_ESCAPES.keys()
-            )
-        ).union(self.expression_undeclared_identifiers)
+        return self.filter_args.undeclared_identifiers.union(
+            self.expression_undeclared_identifiers
+        )
 
 
 class CallTag(Tag):
